@@ -97,7 +97,7 @@ NOT_YET = {
 def main():
     props = [json.loads(l) for l in open('/verif/properties.jsonl')]
     hooks_commits = subprocess.run(
-        ["git", "-C", "/repo", "log", "--format=%h %s", "--grep=^verif hooks"],
+        ["git", "-C", "/repo", "log", "--format=%h %s", "--grep=^verif hook"],
         capture_output=True, text=True).stdout.strip().splitlines()
     checks = []
     na = []
